@@ -136,6 +136,13 @@ Theorem C08_dqn_period_in_env_steps : forall tui n, 0 < n -> 0 < tui ->
 Proof. exact (fun tui n Hn Ht => conj (dqn_period_env_steps tui n Hn Ht) (dqn_period_env_steps_general tui n Hn Ht)). Qed.
 Print Assumptions C08_dqn_period_in_env_steps.
 
+(* the rounded spacing lies in the admissible window for all n_envs, interval: gap in (tui - n_envs, tui] when n_envs <= tui, = n_envs otherwise *)
+Theorem C08_dqn_spacing_window : forall tui n, 0 < n -> 0 < tui ->
+  let g := dqn_period tui n * n in
+  (n <= tui -> tui - n < g <= tui) /\ (tui <= n -> g = n).
+Proof. exact dqn_spacing_window. Qed.
+Print Assumptions C08_dqn_spacing_window.
+
 (* ---- cadence: TD3 / DDPG: global counter, independent of the grouping into train() calls ---- *)
 Theorem C08_td3_update_times : forall delay gs, 0 < delay ->
   let total := fold_right Nat.add 0%nat gs in
